@@ -23,6 +23,10 @@ for d in sorted(glob.glob(V + '/seeded/*/meta.json')):
     m = json.load(open(d))
     runs = m.get('checks_run') or {}
     det = ", ".join("%s: %s" % (k, "yes" if v['detected'] else "NO") for k, v in sorted(runs.items())) or "not run yet"
+    if m.get('obsolete_after_fix'):
+        det = "n/a (neutralised by a later fix: see note)"
+    if m.get('judged_outside'):
+        det = det + " — judged not to break the property as stated (see note)"
     first = "; ".join(v['first'][:110] for k, v in sorted(runs.items()) if v['detected'])[:160].replace('|', '\\|')
     note = m.get('note', '')
     out.append("| %s %s | %s | %s |" % (m['seed_id'], note, det, first))
